@@ -136,11 +136,12 @@ parseSegments:
 	}
 
 	// Incomplete or missing ICC profile
+	if _, iccErr := md.ICCProfileData(); iccErr != nil {
+		return md, nil
+	}
+
 	if len(iccProfileChunks) != iccProfileChunksExtracted {
-		_, iccErr := md.ICCProfileData()
-		if iccErr == nil {
-			md.SetICCProfileError(fmt.Errorf("incomplete ICC profile data"))
-		}
+		md.SetICCProfileError(fmt.Errorf("incomplete ICC profile data"))
 		return md, nil
 	}
 
